@@ -165,7 +165,7 @@ class Engine:
     def call(self, f, args, kwargs):
         if f in self.stubs:
             return self.stubs[f](self, *args, **kwargs)
-        if isinstance(f, types.MethodType) and isinstance(f.__self__, SymDict):
+        if isinstance(f, types.MethodType) and type(f.__self__).__name__ in ('SymDict', 'SymMatch'):
             return f(*args, **kwargs)         # association-list dict: its methods fork on key equality
         if isinstance(f, types.MethodType):
             if f.__func__ in self.stubs:
